@@ -153,9 +153,14 @@ func (g *aspGen) reassign(ind int) {
 	if !e.fresh {
 		g.markAliased(e)
 	}
-	v.aliased, v.nonASCII = !e.fresh, v.nonASCII || e.nonASCII
-	v.folded = e.fold || (e.constLit && v.t.K == AspList && g.reeval())
-	v.ln = e.ln
+	v.nonASCII = v.nonASCII || e.nonASCII
+	fold := e.fold || (e.constLit && v.t.K == AspList && g.reeval())
+	if g.depth > v.depth {
+		// conditional assignment: the old value may survive
+		v.aliased, v.folded, v.ln = v.aliased || !e.fresh, v.folded || fold, -1
+	} else {
+		v.aliased, v.folded, v.ln = !e.fresh, fold, e.ln
+	}
 	if g.depth > 0 {
 		v.ln = -1
 	}
@@ -181,7 +186,7 @@ func (g *aspGen) augAssign(ind int) {
 				g.excluded("augassign-alias")
 				g.emit(ind, v.name+" = "+v.name+" + "+par(e, pAdd+1))
 				g.op(pAdd)
-				v.aliased, v.ln = false, -1
+				v.aliased, v.ln = g.depth > v.depth, -1
 				return
 			}
 			g.feat("augassign_aliased_list")
